@@ -119,7 +119,13 @@ fn run_one(c: &Case, mode: u8, cap: &mut Capture) -> Result<(Vec<u8>, Vec<u8>, (
         }
         Case::Program(p, _) => assemble(p).0,
         Case::Direct(_) => std_rom(),
-        Case::Pressure(op, _) => crate::checks::c04::pressure_rom(*op),
+        Case::Pressure(op, _) => {
+            if *op == 0xff {
+                crate::checks::c04::pressure_rom2()
+            } else {
+                crate::checks::c04::pressure_rom(*op)
+            }
+        }
     };
     let mut boxed: Box<dyn Emu> = if mode == 2 { Box::new(j::M::new(&rom)) } else { Box::new(i::M::new(&rom)) };
     let m: &mut dyn Emu = &mut *boxed;
